@@ -232,11 +232,18 @@ def make_scenarios(ck, behs, quick, rng):
             # queue growth / shrink before the stop: every eligible scenario (some thread logs >= 2 statements that a
             # later stop/exit of a running backend must drain) takes one of the three exercises in turn, turn by
             # turn and with the backend held (hold gate) or asleep (20 ms), so that the drain is left to _exit()
+            # (a fourth exercise in the rotation: no growth/shrink, but the bounded-queue build of the harness)
             nn["q"] = nn.get("q", 0) + 1
-            a["q"] = 1 + nn["q"] % 3
+            a["q"] = 1 + nn["q"] % 4
+            if a["q"] == 4:
+                a["q"], a["bq"] = 0, 1
             a["sync"] = "turn"
             a["soft"] = 0
-            if nn["q"] % 4 == 3 and a["q"] != 3:
+            if a.get("bq"):
+                # the backend must have decoded several statements and written only some when the stop request arrives: a
+                # slow sink (150 us per write) and free-running threads, so that a burst is read in one pass
+                a["gate"], a["sleep"], a["sync"] = 2, -1, "free"
+            elif nn["q"] % 5 == 3 and a["q"] != 3:
                 a["gate"], a["sleep"] = 0, 20000
             else:
                 a["gate"], a["sleep"] = 1, -1
@@ -288,8 +295,20 @@ def scn_line(s, sid=None):
 
 
 # ------------------------------------------------------------------------------------------- 3. real executions
-def build_harness():
+def build_harness(bounded=False):
+    if bounded:
+        return vlib.build("h_life_bb", [vlib.HARNESS / "h_life.cpp"], flags=["-DVL_BOUNDED"])
     return vlib.build("h_life", [vlib.HARNESS / "h_life.cpp"])
+
+
+def run_mixed(exes, scns, lines, timeout):
+    """scenarios marked bq run on the bounded-queue build of the harness, the others on the default build"""
+    obs = {}
+    for b in (0, 1):
+        grp = [ln for s, ln in zip(scns, lines) if s["attrs"].get("bq", 0) == b]
+        if grp:
+            obs.update(run_scenarios(exes[b], grp, timeout=timeout))
+    return obs
 
 
 def run_scenarios(exe, lines, timeout=900):
@@ -507,6 +526,9 @@ def signature(s, o, whys):
     if s["attrs"].get("named") == 2 and s["steps"][-1][0] == "G":
         a2 = dict(s["attrs"], named=0)
         return signature(dict(s, attrs=a2), o, whys) + ":named-logger-absent"
+    if s["attrs"].get("bq"):
+        a2 = dict(s["attrs"], bq=0)
+        return signature(dict(s, attrs=a2), o, whys) + ":bounded-queue"
     if s["attrs"].get("q") and op in ("stopret", "end"):
         a2 = dict(s["attrs"], q=0)
         return signature(dict(s, attrs=a2), o, whys) + ":queue-" + ("grown" if s["attrs"]["q"] == 1 else "shrunk")
@@ -647,8 +669,12 @@ def run(ck):
     if len(scns) < (150 if quick else 1500):
         raise vlib.Infra(f"too few scenarios ({len(scns)})")
     # 3. real executions
-    exe = build_harness()
-    obs = run_scenarios(exe, [scn_line(s) for s in scns], timeout=600 if quick else 1500)
+    exes = (build_harness(), build_harness(bounded=True))
+    for i, s in enumerate(scns):
+        # every fourth scenario without a queue growth/shrink exercise runs with a bounded blocking queue
+        s["attrs"]["bq"] = 1 if s["attrs"].get("bq") or (s["attrs"]["q"] == 0 and i % 4 == 0) else 0
+    ck.extra["bounded_queue_scenarios"] = sum(s["attrs"]["bq"] for s in scns)
+    obs = run_mixed(exes, scns, [scn_line(s) for s in scns], 600 if quick else 1500)
     pairs = [(s, obs[s["id"]]) for s in scns]
     for s, o in pairs:
         if o.get("setup_failed"):
@@ -699,7 +725,7 @@ def run(ck):
                 break
             budget -= 1
             s, o = pairs[i]
-            again = run_scenarios(exe, [scn_line(s, f"r{k}") for k in range(3)], timeout=120)
+            again = run_scenarios(exes[s["attrs"].get("bq", 0)], [scn_line(s, f"r{k}") for k in range(3)], timeout=120)
             re_pairs = [(s, again[f"r{k}"]) for k in range(3)]
             rr = validate(ck, re_pairs)
             if len(rr) == 3 and all(signature(s, re_pairs[k][1], rr[k]) == sig for k in range(3)):
@@ -715,7 +741,7 @@ def run(ck):
         seen = f"file when stop() returned {short(snap[-1])}" if whys[0][1] == "stopret" and snap else \
             f"status {o['status']}, file at process end {short(o['lines'])}"
         ck.violation(sig, f"{scn_line(s)} -> {seen}: {whys[0][0]}",
-                     {"scenario": scn_line(s), "harness": "h_life", "observation": o, "trace": trace_of(o, s["attrs"]["wait"]),
+                     {"scenario": scn_line(s), "harness": "h_life_bb" if s["attrs"].get("bq") else "h_life", "observation": o, "trace": trace_of(o, s["attrs"]["wait"]),
                       "contract_says": [w[0] for w in whys], "reruns": [{"status": r["status"], "lines": r["lines"]} for r in reruns],
                       "same_class_scenarios": [scn_line(pairs[i][0]) for i in by_sig[sig][:10]]})
     ck.extra["rejection_classes"] = {k: len(v) for k, v in by_sig.items()}
@@ -726,7 +752,7 @@ def run(ck):
 
 def replay(ck, path):
     j = json.loads(open(path).read())["replay"]
-    exe = build_harness()
+    exe = build_harness(bounded=j.get("harness") == "h_life_bb")
     f = j["scenario"].split()
     s = {"id": "replay", "steps": f[10:], "attrs": {"wait": int(f[8]), "named": int(f[7]), "q": int(f[9])}}
     line = "replay " + " ".join(j["scenario"].split()[1:])
